@@ -5,6 +5,7 @@ import (
 	"strconv"
 	"strings"
 	"testing"
+	"unicode"
 
 	"github.com/elastic/go-libaudit/v2/rule"
 	"github.com/elastic/go-libaudit/v2/rule/flags"
@@ -128,13 +129,15 @@ func genC14(t *rapid.T) C14Case {
 		case 1:
 			c.Toks = append(c.Toks, Tok{Flag: "A", Form: form(), Val: rapid.SampledFrom([]string{"always,exit", "task,never", "user,always"}).Draw(t, "A")})
 		case 2, 3, 4:
-			lhs := rapid.SampledFrom([]string{"uid", "uid", "path", "a0", "key", "arch", "exit", "x.uid", "junk uid", " uid", "\xc3\xbc", "obj_uid", "subj_user"}).Draw(t, "lhs")
+			lhs := rapid.SampledFrom([]string{"uid", "uid", "path", "a0", "key", "arch", "exit", "x.uid", "junk uid", " uid", "\xc3\xbc", "obj_uid", "subj_user",
+				"not a filter\nauid", "x\nuid", "\nuid", "uid\n"}).Draw(t, "lhs")
 			op := rapid.SampledFrom([]string{"=", "=", "!=", "<", ">", "<=", ">=", "&", "&=", " = ", " >= ", "!", "==", " <"}).Draw(t, "op")
-			rhs := rapid.SampledFrom([]string{"0", "0", "/tmp/my file", "/a=b", "=b", ">5", "x y z", "5 ", " 5", "b64", "-EACCES", "a&b", "q uid=1", "", "a<b", "it's", `say "x"`, "1\n2", "tab\tx"}).Draw(t, "rhs")
+			rhs := rapid.SampledFrom([]string{"0", "0", "/tmp/my file", "/a=b", "=b", ">5", "x y z", "5 ", " 5", "b64", "-EACCES", "a&b", "q uid=1", "", "a<b", "it's", `say "x"`, "1\n2", "tab\tx", "1000\njunk", "0\nuid=1", "\n", "5\n"}).Draw(t, "rhs")
 			c.Toks = append(c.Toks, Tok{Flag: "F", Form: form(), Val: lhs + op + rhs})
 		case 5:
 			c.Toks = append(c.Toks, Tok{Flag: "C", Form: form(), Val: rapid.SampledFrom([]string{"uid=euid", "uid!=euid", "uid=euid junk", "x uid=euid",
-				"uid!=euid-x", "uid = euid", "uid>euid", "uid=", "auid!=obj_uid", "uid=euid=suid", "uid =euid"}).Draw(t, "C")})
+				"uid!=euid-x", "uid = euid", "uid>euid", "uid=", "auid!=obj_uid", "uid=euid=suid", "uid =euid",
+				"auid!=uid\neuid=suid", "some junk\nauid!=uid", "auid!=uid\nobj_uid and more", "auid!=uid\n", "\nauid!=uid"}).Draw(t, "C")})
 		case 6:
 			c.Toks = append(c.Toks, Tok{Flag: "S", Form: form(), Val: rapid.SampledFrom([]string{"open", "open,close", " read , write", "all", "1,2,3", "a,,b", "", "open close"}).Draw(t, "S")})
 		case 7, 8:
@@ -180,11 +183,12 @@ func checkFilter(arg string, f rule.FilterSpec, cmp bool) string {
 	if !isWord(f.LHS) {
 		return fmt.Sprintf("field %q is not a word", f.LHS)
 	}
-	a := strings.TrimLeft(arg, " \t")
+	// (the parser trims white space around the field name, of any kind; that much is tolerated)
+	a := strings.TrimLeftFunc(arg, unicode.IsSpace)
 	if !strings.HasPrefix(a, f.LHS) {
 		return fmt.Sprintf("field %q is not the start of the argument %q (leading text ignored)", f.LHS, arg)
 	}
-	rest := strings.TrimLeft(a[len(f.LHS):], " \t")
+	rest := strings.TrimLeftFunc(a[len(f.LHS):], unicode.IsSpace)
 	if !strings.HasPrefix(rest, f.Comparator) {
 		return fmt.Sprintf("operator %q does not follow the field in %q", f.Comparator, arg)
 	}
